@@ -18,6 +18,10 @@ import (
 	"verif/harness/lib"
 )
 
+// opDeadline: an operation of the code under test that takes longer is reported as a hang. Generous: the
+// machine may be shared with many other checks (a step normally takes microseconds).
+const opDeadline = 300 * time.Second
+
 // maxNum bounds the block numbers a scenario uses; every b in [0, maxNum] is probed after each op.
 const maxNum = 14
 
@@ -57,6 +61,7 @@ type runner struct {
 	fatal    []string        // failures of the harness' own machinery in this scenario
 	luModes  map[string]bool // which variant of ContractStorageLastUpdatedBlock the code showed (see compare)
 	probeLo  uint64          // first block number probed after every op (0 for ordinary scenarios)
+	implPubs []string        // pscript: the entries the real Poller sent to the feed, in order
 }
 
 // classifyApplyError maps an ApplyUpdate error to the model's rejection class by the wording of
@@ -237,6 +242,74 @@ func (r *runner) checkLookups(op int, v *preconfirmed.ChainReader, b uint64, nf 
 		r.violate(op, "receipt-lookup-unexpected-error", fmt.Sprintf("ReceiptByHash(%d): %v", hash, err))
 	}
 	return txTok, rcTok
+}
+
+// entryLookups: (*PreConfirmed).TransactionByHash / ReceiptByHash on every entry of a view. Oracle: a
+// hit is the FIRST transaction of the entry with that hash, at the index returned; a miss means the
+// entry holds none (same for receipts).
+func (r *runner) entryLookups(op int, nf []*pending.PreConfirmed, hash uint64) string {
+	if len(nf) == 0 {
+		return "-"
+	}
+	h := fe(hash)
+	th := felt.TransactionHash(*h)
+	var out []string
+	for _, e := range nf {
+		if e == nil || e.Block == nil {
+			out = append(out, "nil")
+			continue
+		}
+		first := -1
+		for i, x := range e.Block.Transactions {
+			if x != nil && x.Hash().Equal(h) {
+				first = i
+				break
+			}
+		}
+		tTok := "notfound"
+		tx, idx, err := e.TransactionByHash(&th)
+		switch {
+		case err == nil && tx != nil:
+			tTok = fmt.Sprintf("%s.%s@%d", fv(tx.Hash()), txTag(tx), idx)
+			r.hit("entry-lookup-tx-found")
+			if first < 0 || int(idx) != first || e.Block.Transactions[first] != tx {
+				r.violate(op, "entry-tx-lookup-wrong-item-or-index",
+					fmt.Sprintf("block %d: TransactionByHash(%d) returned %s; the first transaction with that hash is at index %d", e.Block.Number, hash, tTok, first))
+			}
+		case errors.Is(err, pending.ErrTransactionNotFound):
+			if first >= 0 {
+				r.violate(op, "entry-tx-lookup-misses-item", fmt.Sprintf("block %d: TransactionByHash(%d): not found, the block holds it at index %d", e.Block.Number, hash, first))
+			}
+		default:
+			tTok = "err"
+			r.violate(op, "entry-tx-lookup-unexpected-error", fmt.Sprintf("block %d: TransactionByHash(%d): %v", e.Block.Number, hash, err))
+		}
+		firstRc := -1
+		for i, x := range e.Block.Receipts {
+			if x != nil && x.TransactionHash.Equal(h) {
+				firstRc = i
+				break
+			}
+		}
+		rTok := "notfound"
+		rc, err := e.ReceiptByHash(&th)
+		switch {
+		case err == nil && rc != nil:
+			rTok = fmt.Sprintf("%s.%s.%d.%d", fv(rc.TransactionHash), fv(rc.Fee), len(rc.Events), revTok(rc))
+			if firstRc < 0 || e.Block.Receipts[firstRc] != rc {
+				r.violate(op, "entry-receipt-lookup-wrong-item", fmt.Sprintf("block %d: ReceiptByHash(%d) returned %s", e.Block.Number, hash, rTok))
+			}
+		case errors.Is(err, pending.ErrTransactionReceiptNotFound):
+			if firstRc >= 0 {
+				r.violate(op, "entry-receipt-lookup-misses-item", fmt.Sprintf("block %d: ReceiptByHash(%d): not found, the block holds it", e.Block.Number, hash))
+			}
+		default:
+			rTok = "err"
+			r.violate(op, "entry-receipt-lookup-unexpected-error", fmt.Sprintf("block %d: ReceiptByHash(%d): %v", e.Block.Number, hash, err))
+		}
+		out = append(out, fmt.Sprintf("%d:%s/%s", e.Block.Number, tTok, rTok))
+	}
+	return strings.Join(out, " ")
 }
 
 // probes: the block numbers looked at after every op: [0, maxNum], or, for a boundary scenario,
@@ -493,6 +566,14 @@ func (r *runner) step(i int, o OpSpec) string {
 		}
 		r.ask(i, "exact", fmt.Sprintf("tx %d %d", o.Head, o.Hash), txTok)
 		r.ask(i, "exact", fmt.Sprintf("rc %d %d", o.Head, o.Hash), rcTok)
+		// the per-entry helpers the rpc handlers use on an entry of the view (the index goes to
+		// PreConfirmedStateBeforeIndexAt): first transaction with that hash and its position
+		etok := "-"
+		if err, panicked, stack := lib.Try(func() error { etok = r.entryLookups(i, nf, o.Hash); return nil }); panicked {
+			r.violate(i, "entry-lookup-panics", fmt.Sprintf("per-entry lookup of hash %d: %v\n%s", o.Hash, err, clip(stack)))
+			etok = "panic"
+		}
+		r.ask(i, "exact", fmt.Sprintf("etx %d %d", o.Head, o.Hash), etok)
 		return "lookup"
 	}
 	return "unknown"
@@ -533,9 +614,9 @@ func runScenario(scn *Scenario, withDrv bool) (*runner, error) {
 	}
 	for i, o := range scn.Ops {
 		var kind string
-		done := lib.WithDeadline(20*time.Second, func() { kind = r.step(i, o) })
+		done := lib.WithDeadline(opDeadline, func() { kind = r.step(i, o) })
 		if !done {
-			r.violate(i, "op-hangs", fmt.Sprintf("op %d (%s) did not return within 20s", i, o.Op))
+			r.violate(i, "op-hangs", fmt.Sprintf("op %d (%s) did not return within %s", i, o.Op, opDeadline))
 			return r, nil
 		}
 		r.observe(i, kind)
